@@ -855,6 +855,9 @@ func (x *Exec) recvBlock(dir, r int, b *pendingBlockRx, fail func(string, string
 		got = LitEncode(fs)
 		fieldsTok = Digest(got)
 	}
+	if x.hazard[dir] {
+		fieldsTok = "~" // F08b class reached: what the receiver decodes is no longer predicted by the model
+	}
 	var lens []string
 	for _, n := range b.lens {
 		lens = append(lens, strconv.Itoa(n))
